@@ -13,7 +13,7 @@ Local Open Scope N_scope.
    keys: the EMPTY key, keys with dots, quotes, line breaks, NUL, leading digits, UTF-8, writer keywords (`null`, `object` ..
    written @null ..), empty strings / arrays / dictionaries, decimals in lowest terms - it returns that value.  The only
    exclusion is visible in ps_txt_ok: a dictionary key that the lexer reads as a keyword while the writer leaves it bare
-   (cw_key_lexes; `in` and `debugger` as the tables stand, finding modattr-keyword-key). *)
+   (cw_key_lexes, general over the regenerated lists; none for the source as it is: C14_text_codec_identity_src). *)
 Theorem C14_text_codec_identity : forall v, ps_txt_ok v -> ps_text_codec v = Some v.
 Proof. exact ps_text_codec_id. Qed.
 Print Assumptions C14_text_codec_identity.
@@ -54,16 +54,30 @@ Theorem C14_population_reload_text : forall fe now specs,
 Proof. exact ps_pop_reload_through_text. Qed.
 Print Assumptions C14_population_reload_text.
 
-(* FINDING modattr-keyword-key: a dictionary key `in` / `debugger` at any depth of a runtime-modified attribute's value
-   is written bare and lexed as a keyword: the literal does not compile, and ONE such line makes the whole file - the
-   blocks of all other objects included - fail to compile (third conjunct: object h's harmless line is lost with it) *)
-Theorem C14_modattr_keyword_key_refuted :
-  ps_text_codec (PsDict [(ps_k_in, PsNum 1 0)]) = None /\
-  ps_text_codec (PsArr [PsDict [([97], PsDict [(ps_k_debugger, PsEmpty)])]]) = None /\
-  ps_file_parse [ {| ps_b_name := [104]; ps_b_lines := [([118; 97; 114; 115; 46; 120], PsStr [111; 107])]; ps_b_version := 5 |};
-                  {| ps_b_name := [105]; ps_b_lines := [([118; 97; 114; 115; 46; 120], PsDict [(ps_k_in, PsNum 1 0)])]; ps_b_version := 7 |} ] = None.
-Proof. exact ps_keyword_key_refuted. Qed.
-Print Assumptions C14_modattr_keyword_key_refuted.
+(* FINDING modattr-keyword-key, GENERAL FORM over the regenerated keyword lists: whenever there is a key k that the writer
+   leaves bare and the lexer reads as a keyword (cw_key_lexes k = false; before fix 918cf68: `in`, `debugger`), a dictionary
+   with that key - at any depth of a runtime-modified attribute's value - does not compile, and with it the whole file *)
+Theorem C14_modattr_keyword_key_general : forall k x,
+  cw_key_lexes k = false -> ps_txt_ok x -> ps_text_codec (PsDict [(k, x)]) = None.
+Proof. exact ps_keyword_key_breaks. Qed.
+Print Assumptions C14_modattr_keyword_key_general.
+
+(* ... FIXED (918cf68: the writer's keyword list contains every lexer keyword, read from /repo on every run): there is no such
+   key, so the codec is the identity for ANY keys - stops checking when the writer loses a lexer keyword again ... *)
+Theorem C14_text_codec_identity_src : forall v, ps_plain v -> ps_text_codec v = Some v.
+Proof. exact ps_text_codec_id_src. Qed.
+Print Assumptions C14_text_codec_identity_src.
+
+(* ... and the former witnesses come back: {"in": 1}, [{"a": {"debugger": null}}], and the two-object file whose second
+   block has a key `in` compiles to itself (object h's line is no longer lost with it) *)
+Theorem C14_modattr_keyword_key_fixed :
+  ps_text_codec (PsDict [(ps_k_in, PsNum 1 0)]) = Some (PsDict [(ps_k_in, PsNum 1 0)]) /\
+  ps_text_codec (PsArr [PsDict [([97], PsDict [(ps_k_debugger, PsEmpty)])]]) = Some (PsArr [PsDict [([97], PsDict [(ps_k_debugger, PsEmpty)])]]) /\
+  (let f := [ {| ps_b_name := [104]; ps_b_lines := [([118; 97; 114; 115; 46; 120], PsStr [111; 107])]; ps_b_version := 5 |};
+              {| ps_b_name := [105]; ps_b_lines := [([118; 97; 114; 115; 46; 120], PsDict [(ps_k_in, PsNum 1 0)])]; ps_b_version := 7 |} ] in
+   ps_file_parse f = Some f).
+Proof. exact ps_keyword_key_fixed. Qed.
+Print Assumptions C14_modattr_keyword_key_fixed.
 
 (* ---------------------------------------------------------------- repeated modification *)
 (* After EVERY allowed history (paths of a pairwise incomparable set P, the same path any number of times, successes and
